@@ -3,6 +3,7 @@ the whole address domain, under several logs sections and with warning / error p
 line byte for byte; TLC (spec/WireTrace.tla + IAuthWire.tla + Addr.tla) judges form and addressing."""
 import ipaddress
 import json
+import re
 import multiprocessing
 import os
 import signal
@@ -109,6 +110,11 @@ def _worker(args):
             d = D.Daemon(b, workdir, SVCS, timeout="1h", modules=("iauth_xquery", "iauth_class"), rules=RULES,
                          logs=LOGS[logs_key], raw=True, addr_text=lambda name: name[2:] if name.startswith("T:") else D.default_addr_text(name))
             w({"e": "Reset", "banner": [list(l) for l in d.banner_raw]}, None)
+            # the shape of the first line of the barrier's report is learned from this process's first barrier (digit runs
+            # generalised), so that a change of the statistics text does not matter
+            d.raw_step(b"")
+            first = next((ln for ln in d.last_raw if ln.startswith(b"S ")), None)
+            bar_re = re.compile(re.sub(rb"\\?\d+", rb"\\d+", re.escape(first)) + rb"$") if first else _BAR
             serial = 0
             for (key, hist) in chunk:
                 if d.dead:
@@ -147,7 +153,7 @@ def _worker(args):
                     # line).  The block's lines are judged for form on every 40th step only (they differ in numbers only), but
                     # its first and last line are always handed to TLC: a message that lost its newline swallows the next line.
                     if "raw" in rec:
-                        blk = [k for k, ln in enumerate(d.last_raw) if _BAR.match(ln)]
+                        blk = [k for k, ln in enumerate(d.last_raw) if bar_re.match(ln)]
                         cut = blk[-1] if blk else len(d.last_raw)
                         rec["bar"] = [list(d.last_raw[cut]), list(d.last_raw[-1])] if blk else []
                         if nsteps % 40:
